@@ -11,7 +11,7 @@ cd "$ROOT"
 build_variant() {
   local v="$1" out="$ROOT/bin/vcheck"
   [ "$v" != plain ] && out="$ROOT/bin/vcheck-$v"
-  cp /repo/go.sum "$ROOT/go.sum" 2>/dev/null
+  cp "${VERIF_REPO:-/repo}/go.sum" "$ROOT/go.sum" 2>/dev/null
   if [ ! -x "$ROOT/bin/instr" ] || [ "$ROOT/cmd/instr/main.go" -nt "$ROOT/bin/instr" ]; then
     go build -o "$ROOT/bin/instr" ./cmd/instr 2>"$ROOT/.work/build.log" || { cat "$ROOT/.work/build.log" >&2; return 2; }
   fi
